@@ -45,6 +45,16 @@ fn idx_cr(d: u64) -> usize {
 
 /// one evaluation: Ok(value) or Err(failure)
 fn eval_toa(p: &BaseBandModulationParams, sf: usize, bw: usize, cr: usize, pre: Option<u8>, explicit: bool, len: u8) -> Result<u32, Failure> {
+    // the `ldro` field is public and documented as forceable: the case records a forced value
+    let auto = BaseBandModulationParams::new(SFS[sf], BWS[bw], CRS[cr]).ldro;
+    let forced = p.ldro != auto;
+    let case_json = |sf, bw, cr, pre, explicit, len| {
+        let mut c = case_json(sf, bw, cr, pre, explicit, len);
+        if forced {
+            c["ldro_forced"] = json!(p.ldro);
+        }
+        c
+    };
     let got = match catch(|| p.time_on_air_us(pre, explicit, len)) {
         Ok(v) => v,
         Err(pm) => return Err(Failure::panic(case_json(sf, bw, cr, pre, explicit, len), &pm)),
@@ -55,7 +65,7 @@ fn eval_toa(p: &BaseBandModulationParams, sf: usize, bw: usize, cr: usize, pre: 
     }
     if got as u128 != want {
         let num = airtime::numerator(SFS[sf].factor(), explicit, len as u32);
-        let fp = if num <= 0 { "formula-equal/numerator<=0" } else { "formula-equal" };
+        let fp = if forced { "formula-equal/ldro-forced" } else if num <= 0 { "formula-equal/numerator<=0" } else { "formula-equal" };
         return Err(Failure::new("formula-equal", case_json(sf, bw, cr, pre, explicit, len), format!("time_on_air_us = {got}, Semtech formula = {want} (numerator {num})")).with_fp(fp));
     }
     Ok(got)
@@ -65,7 +75,10 @@ pub fn replay(case: &Value, _kf: &KnownFindings) -> Result<(), Failure> {
     match case["kind"].as_str() {
         Some("toa") => {
             let (sf, bw, cr) = (idx_sf(case["sf"].as_u64().unwrap_or(7)), idx_bw(case["bw_hz"].as_u64().unwrap_or(125000)), idx_cr(case["cr_denom"].as_u64().unwrap_or(5)));
-            let p = BaseBandModulationParams::new(SFS[sf], BWS[bw], CRS[cr]);
+            let mut p = BaseBandModulationParams::new(SFS[sf], BWS[bw], CRS[cr]);
+            if let Some(f) = case["ldro_forced"].as_bool() {
+                p.ldro = f;
+            }
             let pre = case["preamble"].as_u64().map(|x| x as u8);
             eval_toa(&p, sf, bw, cr, pre, case["explicit_header"].as_bool().unwrap_or(true), case["len"].as_u64().unwrap_or(0) as u8).map(|_| ())
         }
@@ -104,10 +117,10 @@ fn helper_case(sf: usize, bw: usize, ms: u32, symbols: u32) -> Result<(), Failur
 pub fn run(ctx: &mut Ctx) {
     ctx.level = "exploration".into();
     ctx.exhaustive = true;
-    ctx.rule = "exhaustive: 8 SF x 10 BW x 4 CR x 256 lengths x 2 header modes x (None + 256 preamble lengths), each compared for exact equality with the Semtech formula in i64/u128 arithmetic and for monotonicity in the length; plus delay_in_symbols/symbols_to_ms on ms/symbol grids. Non-trivial (distinct by construction): numerator <= 0, or implicit header, or CR != 4/5, or preamble != Some(8)".into();
+    ctx.rule = "exhaustive: 8 SF x 10 BW x 4 CR x 256 lengths x 2 header modes x (None + 256 preamble lengths), each compared for exact equality with the Semtech formula in i64/u128 arithmetic and for monotonicity in the length; plus the same with low-data-rate optimisation forced to the other setting through the public field (4 preamble settings); plus delay_in_symbols/symbols_to_ms on ms/symbol grids. Non-trivial (distinct by construction): numerator <= 0, or implicit header, or CR != 4/5, or preamble != Some(8)".into();
     ctx.assumptions = vec![
         "the Semtech formula is the SX127x/AN1200.13 one the crate documents, for every SF".into(),
-        "the DE term uses the crate's own LDRO flag (C15 judges that flag)".into(),
+        "the DE term uses the parameter set's LDRO flag: the one `new()` derives (C15 judges that decision) and the opposite one forced by the caller".into(),
         "symbol time is floor(2^SF*1e6/BW_Hz) with the crate's bandwidth constants, as documented".into(),
     ];
     let fine = ctx.tier == Tier::Thorough;
@@ -122,6 +135,22 @@ pub fn run(ctx: &mut Ctx) {
                         continue;
                     }
                     let p = BaseBandModulationParams::new(SFS[sf], BWS[bw], CRS[cr]);
+                    // low-data-rate optimisation forced to the other setting by the caller (public field):
+                    // the formula's DE term must follow it
+                    let mut pf = p;
+                    pf.ldro = !p.ldro;
+                    for explicit in [true, false] {
+                        for pre in [None, Some(0u8), Some(8), Some(255)] {
+                            for len in 0..=255u8 {
+                                st.eval();
+                                st.class("ldro-forced");
+                                st.nt_distinct();
+                                if let Err(f) = eval_toa(&pf, sf, bw, cr, pre, explicit, len) {
+                                    st.fail(f);
+                                }
+                            }
+                        }
+                    }
                     for explicit in [true, false] {
                         for prei in 0..257u32 {
                             let pre = if prei == 0 { None } else { Some((prei - 1) as u8) };
